@@ -36,7 +36,7 @@ Definition prism_box : list (list nat) := flat_map (fun ab => map (fun c => ab +
 Lemma star_rules_exact :
   chk_exact0 star_Seg (box [3]) && chk_exact0 star_Quad (box [3; 3]) && chk_exact0 star_Hex (box [3; 3; 3]) &&
   chk_exact0 star_Tri (ElemDefs.exps 2 2) && chk_exact0 star_Tet (ElemDefs.exps 3 2) && chk_exact0 star_Prism prism_box = true.
-Proof. vm_compute. reflexivity. Qed.
+Proof. vm_cast_no_check (eq_refl true). Qed.
 
 (* det J (and det J * x_c, for the first moments) of the straight-sided linear elements stays
    inside those boxes: formal derivatives of order box+1 vanish identically in all variables *)
@@ -64,7 +64,7 @@ Lemma integrands_in_box :
   forallb (fun e => in_box e (detJ e)) linear_elems &&
   forallb (fun e => in_box e (moment e 0) && in_box e (moment e 1) && in_box e (moment e 2)) moment_elems &&
   in_box el_QUAD4 (pdot (xmap el_QUAD4) (normal_field el_QUAD4)) && in_box el_TRI3 (pdot (xmap el_TRI3) (normal_field el_TRI3)) = true.
-Proof. vm_compute. reflexivity. Qed.
+Proof. vm_cast_no_check (eq_refl true). Qed.
 
 (* ============ 2. measure_exact on the tables of the running code ============ *)
 Definition tol13 : Q := 1 # 10000000000000.    (* 1e-13, bound on every coefficient *)
@@ -111,7 +111,7 @@ Definition chk_grad_pou (e : elem) : bool :=
   forallb (fun a => pe_eqb (pe_sum (map (fun row => nth a row PEO) (dNtab e))) PEO) (seq 0 (edim e)) &&
   negb (Nat.eqb (List.length (dNtab e)) 0).
 Lemma all_grad_pou : forallb chk_grad_pou all_elems = true.
-Proof. vm_compute. reflexivity. Qed.
+Proof. vm_cast_no_check (eq_refl true). Qed.
 
 Theorem grad_sum_zero : forall e, In e all_elems -> forall a, a < edim e -> forall l : list R,
   Rsum (map (Reval l) (map (fun row => nth a row PEO) (dNtab e))) = 0%R.
